@@ -279,12 +279,15 @@ pub fn parse_ascii<R: io::BufRead>(mut input: R) -> Result<Mesh, Error> {
                             .map_err(with_lineno(*lineno.borrow()))?;
                         coords.push(c);
                     }
-                    if let Some(word) = words.next() {
-                        let node_ref = word
+                    // The reference column is optional; every node still needs
+                    // an entry, otherwise `node_count()` is wrong.
+                    let node_ref = match words.next() {
+                        Some(word) => word
                             .parse::<isize>()
-                            .map_err(with_lineno(*lineno.borrow()))?;
-                        node_refs.push(node_ref);
-                    }
+                            .map_err(with_lineno(*lineno.borrow()))?,
+                        None => 0,
+                    };
+                    node_refs.push(node_ref);
                     if let Some(word) = words.next() {
                         // TODO error type
                         return Err(Error {
@@ -338,12 +341,15 @@ pub fn parse_ascii<R: io::BufRead>(mut input: R) -> Result<Mesh, Error> {
                         err.lineno = *lineno.borrow();
                         return Err(err);
                     }
-                    if let Some(word) = words.next() {
-                        let element_ref = word
+                    // Same for elements: `Mesh::elements()` zips nodes with
+                    // references, a missing one would drop the element.
+                    let element_ref = match words.next() {
+                        Some(word) => word
                             .parse::<isize>()
-                            .map_err(with_lineno(*lineno.borrow()))?;
-                        refs.push(element_ref);
-                    }
+                            .map_err(with_lineno(*lineno.borrow()))?,
+                        None => 0,
+                    };
+                    refs.push(element_ref);
                 }
 
                 mesh.topology.push((element_type, vertices, refs));
